@@ -10,7 +10,7 @@ RULE = (
     "empty / list attribute values and custom separators; distinct = hash of the configuration; trivial = single row"
 )
 ASSUMPTIONS = ["decoder labels are unique single-line strings that do not start with a style segment", "custom styles use three distinct strings of equal width"]
-GATES = ["mon.C09.rows", "mon.C09.decoder", "mon.C09.text", "mon.C09.repr", "C09.depth_ge_4", "C09.last_under_nonlast", "C09.childiter_changes_last", "C09.multiline", "C09.empty_value", "C09.maxlevel_cuts", "C09.abandoned_iteration", "C09.nested_use", "C09.after_mutation"]
+GATES = ["mon.C09.rows", "mon.C09.decoder", "mon.C09.text", "mon.C09.repr", "C09.depth_ge_4", "C09.last_under_nonlast", "C09.childiter_changes_last", "C09.multiline", "C09.empty_value", "C09.maxlevel_cuts", "C09.abandoned_iteration", "C09.nested_use", "C09.after_mutation", "C09.long_lived_rendertree"]
 
 
 def plan(tier, seed, jobs):
@@ -372,10 +372,36 @@ def histories(ctx, lib, sts):
         fam = ("Node", "NM", "LM", "Node")[h % 4]
         k = rng.randint(3, 9)
         names = ["n%d" % i for i in range(k)]
+        held = []  # RenderTree objects created (and used) at an earlier step of the history
         for nodes, par, ch, case in TR.evolving_universe(ctx, rng, fam, k, rng.randint(4, 16), fault_rate=(0.3 if h % 2 else 0.0)):
             idmap = {id(o): i for i, o in enumerate(nodes)}
             cis = childiters(idmap)
             ctx.count("C09.after_mutation")
+            # a long-lived RenderTree object draws the tree as it is now, not as it was when the object was created or last used
+            for rt, s, st, ciname, ml, born in held:
+                ctx.count("C09.long_lived_rendertree")
+                cil = [c for c in cis if c[0] == ciname][0][2]
+                exp = [tuple(e) for e in R.render_rows(ch, s, st[2], cil, ml)]
+                obs = [(r[0], r[1], idmap.get(id(r[2]), "?")) for r in rt]
+                if obs != exp:
+                    ctx.violation("C09/rows/long-lived-object", "reference-rows", dict(case, hist_start=s, style=st[0], childiter=ciname, maxlevel=ml, created_at_step=born), expected=exp[:20], observed=obs[:20])
+                    return
+            if len(held) < 3:
+                s = rng.randrange(k)
+                st = rng.choice(sts)
+                ci = rng.choice([c for c in cis if c[0] in ("list", "default", "reversed", "sorted-desc")])
+                ml = rng.choice([None, None, 2, 3])
+                kw = {}
+                if st[1] is not None:
+                    kw["style"] = st[1]
+                if ci[1] is not None:
+                    kw["childiter"] = ci[1]
+                if ml is not None:
+                    kw["maxlevel"] = ml
+                rt = lib.RenderTree(nodes[s], **kw)
+                # used in the ways a program uses it: materialised, counted, printed
+                len(list(rt)), len(tuple(rt)), bool(rt), str(rt), rt.by_attr("name")  # noqa: B018
+                held.append((rt, s, st, ci[0], ml, len(case["history"])))
             for _ in range(2):
                 s = rng.randrange(k)
                 st, ci = rng.choice(sts), rng.choice(cis)
@@ -401,8 +427,29 @@ def replay(ctx, wit):
         c = wit["case"]
         ctx.case(("replay",))
         sts = styles(lib)
-        for nodes, par, ch in TR.replay_universe(c):
+        held = None
+        for step, (nodes, par, ch) in enumerate(TR.replay_universe(c)):
             k = len(nodes)
+            if "created_at_step" in c:
+                idm = {id(o): i for i, o in enumerate(nodes)}
+                st_ = [x for x in sts if x[0] == c.get("style", "ascii")][0]
+                ci_ = [x for x in childiters(idm) if x[0] == c.get("childiter", "list")][0]
+                if held is not None:
+                    exp = [tuple(e) for e in R.render_rows(ch, c["hist_start"], st_[2], ci_[2], c.get("maxlevel"))]
+                    obs = [(r[0], r[1], idm.get(id(r[2]), "?")) for r in held]
+                    if obs != exp:
+                        ctx.violation("C09/rows/long-lived-object", "reference-rows", dict(c), expected=exp[:20], observed=obs[:20])
+                        return
+                if step == c["created_at_step"]:
+                    kw = {}
+                    if st_[1] is not None:
+                        kw["style"] = st_[1]
+                    if ci_[1] is not None:
+                        kw["childiter"] = ci_[1]
+                    if c.get("maxlevel") is not None:
+                        kw["maxlevel"] = c["maxlevel"]
+                    held = lib.RenderTree(nodes[c["hist_start"]], **kw)
+                    len(list(held)), len(tuple(held)), bool(held), str(held), held.by_attr("name")  # noqa: B018
             names = ["n%d" % i for i in range(k)]
             idmap = {id(o): i for i, o in enumerate(nodes)}
             cis = childiters(idmap)
